@@ -356,7 +356,7 @@ func buildReal(c *Case) (rp *realProg, defPanic string) {
 				}
 			case KStrs:
 				if op.Var {
-					v := []string{}
+					v := append([]string{}, op.InitSS...)
 					h.pss = &v
 					g.StringSliceVar(h.pss, op.Name, op.Min, op.Max, ms...)
 				} else {
@@ -364,7 +364,7 @@ func buildReal(c *Case) (rp *realProg, defPanic string) {
 				}
 			case KInts:
 				if op.Var {
-					v := []int{}
+					v := append([]int{}, op.InitIS...)
 					h.pis = &v
 					g.IntSliceVar(h.pis, op.Name, op.Min, op.Max, ms...)
 				} else {
@@ -381,6 +381,12 @@ func buildReal(c *Case) (rp *realProg, defPanic string) {
 			case KMap:
 				if op.Var {
 					var v map[string]string
+					if len(op.InitM) > 0 {
+						v = map[string]string{}
+						for _, kv := range op.InitM {
+							v[kv[0]] = kv[1]
+						}
+					}
 					h.pm = &v
 					g.StringMapVar(h.pm, op.Name, op.Min, op.Max, ms...)
 				} else {
